@@ -108,7 +108,13 @@ def load_known():
 
 def matches_known(known, prop, v):
     for k in known.get("findings", []):
-        if k["property"] != prop or k["rule"] != v["rule"]:
+        props = k.get("properties") or [k.get("property")]
+        if prop not in props:
+            continue
+        if "rule_suffix" in k:
+            if not v["rule"].endswith(k["rule_suffix"]):
+                continue
+        elif k["rule"] != v["rule"]:
             continue
         need = k.get("detail_contains", [])
         if all(s in v.get("detail", "") for s in need):
@@ -554,7 +560,7 @@ def main():
             for v in r.get("violations") or []:
                 k = sig_of(v)
                 cnt[k] = cnt.get(k, 0) + 1
-                ex.setdefault(k, ((r.get("plan") or {}).get("seed"), v["detail"][:260]))
+                ex.setdefault(k, ("%s/%s" % ((r.get("plan") or {}).get("seed"), (r.get("plan") or {}).get("variant")), v["detail"][:260]))
             if r.get("status") not in ("ok", "violation"):
                 k = "status:" + str(r.get("status"))
                 ex.setdefault(k, ((r.get("plan") or {}).get("seed"), str(r.get("harness") or r.get("output"))[-700:]))
